@@ -346,11 +346,11 @@ def replay_schedule(spec):
     for name, times in spec['sensors'].items():
         times = np.array(times, dtype=float)
         if name == 'Position':
-            data = pd.DataFrame({'lat': 50.0 + 1e-6 * np.arange(len(times)), 'lon': 30.0, 'alt': 100.0}, index=times)
+            data = pd.DataFrame({'hdop': 1.0, 'alt': 100.0, 'lat': 50.0 + 1e-6 * np.arange(len(times)), 'lon': 30.0}, index=times)
             # lever arms make the measurement models read the attitude and the body rates of the predicted state
             m = measurements.Position(data, 5.0, imu_to_antenna_b=np.array([1.0, 0.5, -0.3]))
         elif name == 'NedVelocity':
-            data = pd.DataFrame({'VN': 1.0, 'VE': -2.0, 'VD': 0.1 * np.arange(len(times))}, index=times)
+            data = pd.DataFrame({'VD': 0.1 * np.arange(len(times)), 'VN': 1.0, 'VE': -2.0}, index=times)
             m = measurements.NedVelocity(data, 0.5, imu_to_antenna_b=np.array([1.0, 0.5, -0.3]))
         else:
             data = pd.DataFrame({'VX': 1.0, 'VY': 0.0, 'VZ': 0.1}, index=times)
@@ -405,6 +405,10 @@ def replay_schedule(spec):
         for j, c in enumerate(['dv_x', 'dv_y', 'dv_z']):
             inc[c] = [0.01, -0.02, -9.81][j] * dt
 
+        # tables are identified by column NAMES, the altitude flag by its truth value: the replays use a
+        # non-canonical column order (and a foreign column in the measurement tables) and a numpy boolean
+        inc = inc[['dv_z', 'theta_y', 'dt', 'dv_x', 'theta_x', 'theta_z', 'dv_y']]
+        wa = np.bool_(wa)
         orig_int = filters.strapdown.Integrator
 
         class RecIntegrator(orig_int):
@@ -456,6 +460,8 @@ def replay_schedule(spec):
                 inc[c] = [1e-5, 2e-5, -1e-5][j] * dt
             for j, c in enumerate(['dv_x', 'dv_y', 'dv_z']):
                 inc[c] = [0.01, -0.02, -9.81][j] * dt
+            inc = inc[['dv_z', 'theta_y', 'dt', 'dv_x', 'theta_x', 'theta_z', 'dv_y']]
+        wa = np.bool_(wa)
         try:
             result = filters.run_feedforward_filter(nominal, computed, 10.0, 1.0, 1.0, 1.0, gyro_model=gm,
                                                     accel_model=am, measurements=meas, increments=inc,
